@@ -208,8 +208,10 @@ class PixCoord:
         separation : `numpy.array`
             The separation in pixels.
         """
-        dx = other.x - self.x
-        dy = other.y - self.y
+        # the differences are formed in floating point: integer arrays
+        # (in particular unsigned ones) must not wrap around or overflow
+        dx = np.subtract(other.x, self.x, dtype=float)
+        dy = np.subtract(other.y, self.y, dtype=float)
         return np.hypot(dx, dy)
 
     @property
